@@ -1,836 +1,16 @@
 /-
-C18 — features agree on arrays and images and keep annotations attached.  Property theorems.
+C18 — features agree on arrays and images and keep annotations attached.  Property theorems (umbrella module).
 
-Part A: the decorators (`ndfeature`, `imgfeature`, `winitfeature`, `rebuild_feature_image*`), for EVERY array-level
-        feature `f` (the numerical kernels are the abstract `f`: library code, not modelled).
-Part B: `normalize` and the three `normalize_*` features over ℚ; the scale statistic is a contract parameter
-        (`σ·σ = var`, `ν·ν = Σx²`, non-negative), assumed only at the data it is applied to.
-Part C: who writes where — the input buffer is never written.
+  Props/C18Base.lean     Part A the decorators (generic in the feature), Part B the normalisers over ℚ,
+                         Part C who writes where
+  Props/C18Kernels.lean  Part D the numerical kernels inside the model: gradient, no_op, IGO, ES, gaussian_filter
+  Props/C18Seq.lean      Part E feature of feature: invariants of arbitrary sequences of decorated features
+  Props/C18Resize.lean   Part F the size-changing branch in binary64: template extent, sampling positions, landmarks
+  Props/C18Norm.lean     Part G the normalisers on degenerate data (single pixel, one masked pixel), idempotence
+                         up to the sign of the scale
 -/
-import MenpoModel.Core.C18Feature
-import MenpoModel.Lemmas.C18Sums
-import MenpoModel.Lemmas.C18Wrap
-
-namespace MenpoModel.C18
-
-/-! ## Part A — the wrappers, generic in the feature -/
-
-section wrappers
-variable {P : Type} (sh : P → List Nat)
-
-def Arg.pixels : Arg P → P
-  | .arr p => p
-  | .img im => im.pixels
-
-theorem rebuild_pixels (im : Img P) (fp : P) (r : Img P) (h : rebuild sh im fp = .ok r) : r.pixels = fp := by
-  unfold rebuild at h
-  cases hm : im.mask with
-  | none => simp only [hm] at h; injection h with h; rw [← h]
-  | some m =>
-    simp only [hm] at h
-    split at h
-    · cases h
-    · injection h with h; rw [← h]
-
-/-- PROPERTY (same values for both calling conventions): whenever the image call returns, the array call on the
-image's pixel array returns exactly the pixels of the returned image — for every feature `f`. -/
-theorem ndfeature_agrees (f : P → Except Err P) (im : Img P) (r : Arg P)
-    (h : ndfeature sh f (.img im) = .ok r) :
-    ndfeature sh f (.arr im.pixels) = .ok (.arr r.pixels) := by
-  simp only [ndfeature] at h ⊢
-  cases hf : f im.pixels with
-  | error e => simp [hf] at h
-  | ok fp =>
-    simp only [hf] at h
-    cases hr : rebuild sh im fp with
-    | error e => simp [hr, Except.map] at h
-    | ok r' =>
-      simp only [hr, Except.map] at h
-      injection h with h
-      subst h
-      simp [Except.map, Arg.pixels, rebuild_pixels sh im fp r' hr]
-
-/-- … and an exception of the array-level feature is the exception of the image call -/
-theorem ndfeature_error_agrees (f : P → Except Err P) (im : Img P) (e : Err) (h : f im.pixels = .error e) :
-    ndfeature sh f (.img im) = .error e ∧ ndfeature sh f (.arr im.pixels) = .error e := by
-  simp [ndfeature, h, Except.map]
-
-/-- `@imgfeature`: an array is treated as the plain image without annotations holding it -/
-theorem imgfeature_agrees (g : Img P → Except Err (Img P)) (p : P) (r : Img P)
-    (h : imgfeature g (.img ⟨p, none, []⟩) = .ok (.img r)) :
-    imgfeature g (.arr p) = .ok (.arr r.pixels) := by
-  simp only [imgfeature] at h ⊢
-  cases hg : g ⟨p, none, []⟩ with
-  | error e => simp [hg, Except.map] at h
-  | ok r' =>
-    simp only [hg, Except.map] at h
-    injection h with h; injection h with h
-    subst h; rfl
-
-theorem rebuildCentres_pixels (im : Img P) (fp : P) (c : Centres) (r : Img P)
-    (h : rebuildCentres im fp c = .ok r) : r.pixels = fp := by
-  unfold rebuildCentres at h
-  cases hm : im.mask with
-  | none => simp only [hm] at h; injection h with h; rw [← h]
-  | some m =>
-    simp only [hm] at h
-    split at h
-    · cases h
-    · injection h with h; rw [← h]
-
-theorem winitfeature_agrees (f : P → Except Err (P × Centres)) (im : Img P) (r : Arg P)
-    (h : winitfeature f (.img im) = .ok r) :
-    winitfeature f (.arr im.pixels) = .ok (.arr r.pixels) := by
-  simp only [winitfeature] at h ⊢
-  cases hf : f im.pixels with
-  | error e => simp [hf] at h
-  | ok fc =>
-    obtain ⟨fp, c⟩ := fc
-    simp only [hf] at h
-    cases hr : rebuildCentres im fp c with
-    | error e => simp [hr, Except.map] at h
-    | ok r' =>
-      simp only [hr, Except.map] at h
-      injection h with h
-      subst h
-      simp [Except.map, Arg.pixels, rebuildCentres_pixels im fp c r' hr]
-
-/-- PROPERTY (same masked-or-not kind) -/
-theorem feature_keeps_kind (im : Img P) (fp : P) (r : Img P) (h : rebuild sh im fp = .ok r) :
-    r.mask.isSome = im.mask.isSome := by
-  unfold rebuild at h
-  cases hm : im.mask with
-  | none => simp only [hm] at h; injection h with h; rw [← h]
-  | some m =>
-    simp only [hm] at h
-    split at h
-    · cases h
-    · rename_i mask' hmask
-      injection h with h; rw [← h]
-      simp only [Option.isSome]
-      split at hmask
-      · cases hrm : resizeMask m (sh fp) with
-        | error e => simp [hrm, Except.map] at hmask
-        | ok m' => simp only [hrm, Except.map] at hmask; cases hmask; rfl
-      · cases hmask; rfl
-
-/-- PROPERTY (a size-keeping feature returns the landmarks and the mask unchanged) — always succeeds -/
-theorem feature_same_size_keeps_annotations (im : Img P) (fp : P) (hs : sh fp = sh im.pixels) :
-    rebuild sh im fp = .ok ⟨fp, im.mask, im.lms⟩ := by
-  unfold rebuild
-  have hch : (sh fp != sh im.pixels) = false := by simp [hs]
-  have hl : (if im.lms.isEmpty = true then ([] : Lms) else im.lms) = im.lms := by
-    cases h : im.lms <;> simp
-  cases hm : im.mask with
-  | none => simp [hch]
-  | some m => simp [hch]
-
-/-- PROPERTY (a size-changing feature: landmarks scaled by the shape ratio, mask resized to the new shape) -/
-theorem feature_new_size_rescales (im : Img P) (fp : P) (r : Img P) (hs : sh fp ≠ sh im.pixels)
-    (h : rebuild sh im fp = .ok r) :
-    r.lms = scaleLms (ratio (sh fp) (sh im.pixels)) im.lms ∧
-    (∀ m, im.mask = some m → ∃ m', r.mask = some m' ∧ resizeMask m (sh fp) = .ok m' ∧ m'.shape = sh fp ∧
-        m'.bits.length = prod (sh fp)) ∧
-    (im.mask = none → r.mask = none) := by
-  have hch : (sh fp != sh im.pixels) = true := by simp [hs]
-  have hl : ∀ sf, (if im.lms.isEmpty = true then ([] : Lms) else scaleLms sf im.lms) = scaleLms sf im.lms := by
-    intro sf; cases h : im.lms <;> simp [scaleLms]
-  unfold rebuild at h
-  cases hm : im.mask with
-  | none =>
-    simp only [hm, hch, if_true, hl] at h
-    injection h with h
-    subst h
-    exact ⟨rfl, (by intro m hm'; cases hm'), fun _ => rfl⟩
-  | some m =>
-    simp only [hm, hch, if_true, hl] at h
-    cases hrm : resizeMask m (sh fp) with
-    | error e => simp [hrm, Except.map] at h
-    | ok m' =>
-      simp only [hrm, Except.map] at h
-      injection h with h
-      subst h
-      refine ⟨rfl, ?_, (by intro hc; cases hc)⟩
-      intro m0 hm0
-      injection hm0 with hm0
-      subst hm0
-      refine ⟨m', rfl, hrm, ?_, ?_⟩
-      all_goals
-        unfold resizeMask at hrm
-        split at hrm
-        · cases hrm
-        · split at hrm
-          · cases hrm
-          · injection hrm with hrm; subst hrm; simp
-
-/-- the image call succeeds whenever the array call does, unless a masked image would get an empty extent
-(then the code raises "Scales must be positive floats.") -/
-theorem ndfeature_total (f : P → Except Err P) (im : Img P) (fp : P) (hf : f im.pixels = .ok fp)
-    (hwf : ∀ m, im.mask = some m → m.shape.length = (sh fp).length ∧ ∀ d ∈ sh fp, d ≠ 0) :
-    ∃ r, ndfeature sh f (.img im) = .ok (.img r) := by
-  simp only [ndfeature, hf]
-  unfold rebuild
-  cases hm : im.mask with
-  | none => exact ⟨_, rfl⟩
-  | some m =>
-    obtain ⟨hlen, hnz⟩ := hwf m hm
-    by_cases hch : (sh fp != sh im.pixels) = true
-    · have h0 : (sh fp).any (· == 0) = false := by
-        rw [List.any_eq_false]; intro d hd; simpa using hnz d hd
-      have : resizeMask m (sh fp) = .ok ⟨sh fp, (List.range (prod (sh fp))).map fun k =>
-          ((resizeBit m (sh fp) k).1).getD false⟩ := by
-        unfold resizeMask; simp [hlen, h0]
-      simp only [hch, if_true, this, Except.map]
-      exact ⟨_, rfl⟩
-    · simp only [hch, Except.map]
-      exact ⟨_, rfl⟩
-
-/-- window-iterating features: pixels as returned, mask sampled at the window centres, landmarks moved to the
-grid of centres (`(p − min) / step`), same kind -/
-theorem winit_annotations (im : Img P) (fp : P) (c : Centres) (r : Img P) (h : rebuildCentres im fp c = .ok r) :
-    r.pixels = fp ∧ r.mask.isSome = im.mask.isSome ∧
-    r.lms = im.lms.map (fun kg => (kg.1, kg.2.map (correctPt c))) ∧
-    (∀ m, im.mask = some m → ∃ m', r.mask = some m' ∧ sampleMask m c = .ok m') := by
-  have hl : (if im.lms.isEmpty = true then ([] : Lms) else im.lms.map fun kg => (kg.1, kg.2.map (correctPt c)))
-      = im.lms.map fun kg => (kg.1, kg.2.map (correctPt c)) := by
-    cases h : im.lms <;> simp
-  unfold rebuildCentres at h
-  cases hm : im.mask with
-  | none =>
-    simp only [hm, hl] at h
-    injection h with h; subst h
-    exact ⟨rfl, rfl, rfl, (by intro m hm'; cases hm')⟩
-  | some m =>
-    simp only [hm, hl] at h
-    cases hs : sampleMask m c with
-    | error e => simp [hs, Except.map] at h
-    | ok m' =>
-      simp only [hs, Except.map] at h
-      injection h with h; subst h
-      refine ⟨rfl, rfl, rfl, ?_⟩
-      intro m0 hm0; injection hm0 with hm0; subst hm0
-      exact ⟨m', rfl, hs⟩
-
-theorem correctPt_2d (c : Centres) (y x : Rat) :
-    correctPt c [y, x] = [(y - ((centresMin c).1 : Rat)) / ((centresStep c).1 : Rat),
-                          (x - ((centresMin c).2 : Rat)) / ((centresStep c).2 : Rat)] := rfl
-
-end wrappers
-
-/-- compositions of decorated features: the pixels are the composition of the array-level features -/
-theorem ndfeature_compose_pixels {P : Type} (sh : P → List Nat) (f g : P → Except Err P) (im r1 r2 : Img P)
-    (h1 : ndfeature sh f (.img im) = .ok (.img r1)) (h2 : ndfeature sh g (.img r1) = .ok (.img r2)) :
-    (f im.pixels).bind g = .ok r2.pixels := by
-  have a1 := ndfeature_agrees sh f im _ h1
-  have a2 := ndfeature_agrees sh g r1 _ h2
-  simp only [ndfeature, Arg.pixels] at a1 a2
-  cases hf : f im.pixels with
-  | error e => simp [hf, Except.map] at a1
-  | ok p1 =>
-    simp only [hf, Except.map] at a1
-    injection a1 with a1; injection a1 with a1
-    subst a1
-    cases hg : g r1.pixels with
-    | error e => simp [hg, Except.map] at a2
-    | ok p2 =>
-      simp only [hg, Except.map] at a2
-      injection a2 with a2; injection a2 with a2
-      subst a2
-      simp [Except.bind, hg]
-
-/-- … and two successive rescalings of a 2-D landmark are the rescaling by the overall shape ratio -/
-theorem landmarks_compose_2d (a0 a1 b0 b1 c0 c1 : Nat) (y x : Rat) (hb0 : b0 ≠ 0) (hb1 : b1 ≠ 0) :
-    scalePt (ratio [c0, c1] [b0, b1]) (scalePt (ratio [b0, b1] [a0, a1]) [y, x])
-      = scalePt (ratio [c0, c1] [a0, a1]) [y, x] := by
-  have h0 : (b0 : Rat) ≠ 0 := by exact_mod_cast hb0
-  have h1 : (b1 : Rat) ≠ 0 := by exact_mod_cast hb1
-  simp only [scalePt_2d]
-  congr 1
-  · field_simp
-  · congr 1; field_simp
-
-/-! ### non-vacuity of Part A -/
-
-/-- a size-changing toy feature on shapes-as-pixels: 4×4 → 2×3 -/
-example : rebuild (P := List Nat) id ⟨[4, 4], some ⟨[4, 4], List.replicate 16 true⟩, [(7, [[2, 3]])]⟩ [2, 3]
-    = .ok ⟨[2, 3], some ⟨[2, 3], List.replicate 6 true⟩, [(7, [[1, 9 / 4]])]⟩ := by decide +kernel
-example : srcAxis 4 3 1 = .tie 2 ∧ srcAxis 4 2 1 = .at 3 ∧ srcAxis 1 3 0 = .degenerate := by decide
-example : ndfeature (P := List Nat) id (fun p => .ok (p.map (· - 2))) (.img ⟨[9, 9], none, []⟩)
-    = .ok (.img ⟨[7, 7], none, []⟩) := by decide +kernel
-
-/-! ## Part B — the normalisers over ℚ -/
-
-/-- the centred row and its normalisation: divided by the statistic, or left as it is when the statistic is 0 -/
-def cen (row : List Rat) : List Rat := row.map (· - mean row)
-def rowNorm (stat : List Rat → Rat) (row : List Rat) : List Rat :=
-  if stat (cen row) = 0 then cen row else (cen row).map (· / stat (cen row))
-
-theorem any_zero_iff (l : List Rat) : l.any (· == 0) = true ↔ ∃ s ∈ l, s = 0 := by
-  simp [List.any_eq_true]
-
-theorem normCore_per_channel (stat : List Rat → Rat) (e fx : Bool) (c : Chans) :
-    normCore .perChannel e fx c (c.map stat) =
-      if e = true ∧ (∃ r ∈ c, stat r = 0) then .error .zeroScale
-      else .ok (c.map fun r => if stat r = 0 then r else r.map (· / stat r)) := by
-  have hany : (c.map stat).any (· == 0) = true ↔ ∃ r ∈ c, stat r = 0 := by
-    simp [List.any_eq_true]
-  unfold normCore
-  by_cases hz : ∃ r ∈ c, stat r = 0
-  · have hA : (c.map stat).any (· == 0) = true := hany.mpr hz
-    cases e with
-    | true => simp [hA, hz]
-    | false =>
-      simp only [hA, Bool.false_and, if_true, if_false, Bool.false_eq_true]
-      cases fx with
-      | false =>
-        simp only [Bool.false_eq_true, if_false]
-        rw [zipWith_map_self]
-        congr 1
-        apply List.map_congr_left
-        intro row _
-        simp
-      | true =>
-        simp only [if_true]
-        unfold divRows
-        have hsafe : ((c.map stat).map fun s => if (s == 0) = true then (1 : Rat) else s).any (· == 0) = false := by
-          rw [List.any_eq_false]
-          intro s hs
-          simp only [List.mem_map] at hs
-          obtain ⟨t, _, rfl⟩ := hs
-          by_cases ht : t = 0 <;> simp [ht]
-        simp only [hsafe, Bool.false_eq_true, if_false]
-        rw [List.map_map, zipWith_map_self]
-        congr 1
-        apply List.map_congr_left
-        intro row _
-        simp only [Function.comp]
-        by_cases h0 : stat row = 0
-        · simp [h0]
-        · simp [h0]
-  · have hA : (c.map stat).any (· == 0) = false := by
-      rw [Bool.eq_false_iff]; exact fun h => hz (hany.mp h)
-    have hgoal : ¬ (e = true ∧ ∃ r ∈ c, stat r = 0) := fun h => hz h.2
-    simp only [hA, Bool.and_false, hgoal, if_false, Bool.false_eq_true]
-    unfold divRows
-    simp only [hA, Bool.false_eq_true, if_false]
-    rw [zipWith_map_self]
-    congr 1
-    apply List.map_congr_left
-    intro row hrow
-    have : stat row ≠ 0 := fun h => hz ⟨row, hrow, h⟩
-    simp [this]
-
-/-- PROPERTY (`mode='per_channel'`: result = centred / statistic per channel; a zero statistic is refused when asked
-and skipped when asked) — both the coded and the repaired branch logic -/
-theorem normalize_per_channel_spec (stat : List Rat → Rat) (e fx : Bool) (x : Chans) :
-    normalizeV stat .perChannel e fx x =
-      if e = true ∧ (∃ row ∈ x, stat (cen row) = 0) then .error .zeroScale
-      else .ok (x.map (rowNorm stat)) := by
-  have hc : centre .perChannel x = x.map cen := rfl
-  unfold normalizeV
-  simp only [hc, scalesOf]
-  rw [normCore_per_channel]
-  have hex : (∃ r ∈ x.map cen, stat r = 0) ↔ ∃ row ∈ x, stat (cen row) = 0 := by simp
-  simp only [hex, List.map_map]
-  rfl
-
-/-- the centred data in `mode='all'` -/
-def cenAll (x : Chans) : Chans := x.map fun row => row.map (· - mean x.flatten)
-
-theorem cenAll_flatten (x : Chans) : (cenAll x).flatten = x.flatten.map (· - mean x.flatten) :=
-  flatten_map_map _ x
-
-/-- PROPERTY (`mode='all'`: result = centred / overall statistic; zero statistic refused when asked; when skipping
-is asked the code as written raises IndexError (`fx = false`), the repaired code returns the centred data) -/
-theorem normalize_all_spec (stat : List Rat → Rat) (e fx : Bool) (x : Chans) :
-    normalizeV stat .all e fx x =
-      if stat (cenAll x).flatten = 0 then
-        (if e then .error .zeroScale else if fx then .ok (cenAll x) else .error .index)
-      else .ok ((cenAll x).map fun row => row.map (· / stat (cenAll x).flatten)) := by
-  have hc : centre .all x = cenAll x := rfl
-  unfold normalizeV normCore
-  simp only [hc, scalesOf, List.any_cons, List.any_nil, Bool.or_false]
-  by_cases hz : stat (cenAll x).flatten = 0
-  · simp only [hz, beq_self_eq_true, Bool.and_true, if_true]
-    cases e with
-    | true => simp
-    | false =>
-      cases fx with
-      | false => simp
-      | true =>
-        simp only [Bool.false_eq_true, if_false, if_true]
-        unfold divRows
-        simp
-  · have hb : (stat (cenAll x).flatten == 0) = false := by simpa using hz
-    simp only [hb, Bool.and_false, Bool.false_eq_true, if_false, hz]
-    unfold divRows
-    simp [hb]
-
-/-- PROPERTY (zero scale, repaired code): the only refusal is the requested one, and otherwise a result is
-returned; no branch divides by zero -/
-theorem normalize_zero_scale_fixed (stat : List Rat → Rat) (mode : Mode) (e : Bool) (x : Chans) :
-    (∃ y, normalizeV stat mode e true x = .ok y) ∨
-    (e = true ∧ normalizeV stat mode e true x = .error .zeroScale ∧
-      (∃ s ∈ scalesOf stat mode (centre mode x), s = 0)) := by
-  cases mode with
-  | all =>
-    rw [normalize_all_spec]
-    by_cases hz : stat (cenAll x).flatten = 0
-    · cases e with
-      | true => right; exact ⟨rfl, by simp [hz], ⟨_, by simp [scalesOf, centre, cenAll] , hz⟩⟩
-      | false => left; simp [hz]
-    · left; simp [hz]
-  | perChannel =>
-    rw [normalize_per_channel_spec]
-    by_cases hz : e = true ∧ ∃ row ∈ x, stat (cen row) = 0
-    · right
-      refine ⟨hz.1, by simp [hz], ?_⟩
-      obtain ⟨row, hrow, h0⟩ := hz.2
-      exact ⟨stat (cen row), by simp only [scalesOf, centre, List.mem_map]; exact ⟨cen row, ⟨row, hrow, rfl⟩, rfl⟩, h0⟩
-    · left; simp [hz]
-
-/-- … and never a non-finite value, in either version of the code -/
-theorem normalize_never_nonfinite (stat : List Rat → Rat) (mode : Mode) (e fx : Bool) (x : Chans) :
-    normalizeV stat mode e fx x ≠ .error .nonFinite := by
-  cases mode with
-  | all =>
-    rw [normalize_all_spec]
-    split
-    · cases e <;> cases fx <;> simp
-    · simp
-  | perChannel =>
-    rw [normalize_per_channel_spec]
-    split <;> simp
-
-/-- the skip request is honoured exactly: with `error_on_divide_by_zero=False` the repaired code always returns -/
-theorem normalize_skip_total (stat : List Rat → Rat) (mode : Mode) (x : Chans) :
-    ∃ y, normalizeV stat mode false true x = .ok y := by
-  rcases normalize_zero_scale_fixed stat mode false x with h | h
-  · exact h
-  · exact absurd h.1 (by simp)
-
-/-- REFUTATION of the skip clause for the code as written: `mode='all'`, zero scale, skipping requested ⇒
-IndexError — for one channel and for several (witnesses: constant images, statistic = variance) -/
-theorem normalize_zero_scale_coded_refuted :
-    normalizeV var .all false false [[1, 1, 1, 1]] = .error .index ∧
-    normalizeV var .all false false [[1, 1], [1, 1], [1, 1]] = .error .index ∧
-    normalizeV var .all false true [[1, 1], [1, 1], [1, 1]] = .ok [[0, 0], [0, 0], [0, 0]] := by
-  decide +kernel
-
-/-- the coded skip branch fails in `mode='all'` for EVERY input with a zero statistic -/
-theorem normalize_zero_scale_coded_all (stat : List Rat → Rat) (x : Chans) (hz : stat (cenAll x).flatten = 0) :
-    normalizeV stat .all false false x = .error .index := by
-  rw [normalize_all_spec]; simp [hz]
-
-/-- apart from that branch the code as written and the repaired code coincide -/
-theorem normalize_coded_eq_fixed (stat : List Rat → Rat) (mode : Mode) (e : Bool) (x : Chans)
-    (h : mode = .perChannel ∨ e = true ∨ stat (cenAll x).flatten ≠ 0) :
-    normalizeV stat mode e false x = normalizeV stat mode e true x := by
-  cases mode with
-  | perChannel => rw [normalize_per_channel_spec, normalize_per_channel_spec]
-  | all =>
-    rw [normalize_all_spec, normalize_all_spec]
-    rcases h with h | h | h
-    · cases h
-    · subst h; simp
-    · simp [h]
-
-/-! ### zero mean -/
-
-theorem sum_rowNorm (stat : List Rat → Rat) (row : List Rat) (h : row ≠ []) : sum (rowNorm stat row) = 0 := by
-  unfold rowNorm cen
-  split
-  · exact sum_centred row h
-  · rw [sum_map_div_const, sum_centred row h]; simp
-
-/-- PROPERTY (zero-mean data, per channel), whichever branch was taken -/
-theorem normalize_zero_mean_per_channel (stat : List Rat → Rat) (e fx : Bool) (x y : Chans)
-    (hne : ∀ row ∈ x, row ≠ []) (h : normalizeV stat .perChannel e fx x = .ok y) :
-    ∀ row ∈ y, mean row = 0 := by
-  rw [normalize_per_channel_spec] at h
-  split at h
-  · cases h
-  · injection h with h
-    subst h
-    intro row hrow
-    simp only [List.mem_map] at hrow
-    obtain ⟨r, hr, rfl⟩ := hrow
-    unfold mean
-    rw [sum_rowNorm stat r (hne r hr)]; simp
-
-/-- PROPERTY (zero-mean data, overall), whichever branch was taken -/
-theorem normalize_zero_mean_all (stat : List Rat → Rat) (e fx : Bool) (x y : Chans)
-    (hne : x.flatten ≠ []) (h : normalizeV stat .all e fx x = .ok y) : mean y.flatten = 0 := by
-  have hc : sum (cenAll x).flatten = 0 := by rw [cenAll_flatten]; exact sum_centred _ hne
-  rw [normalize_all_spec] at h
-  split at h
-  · cases e <;> cases fx <;> simp at h
-    subst h; unfold mean; rw [hc]; simp
-  · injection h with h
-    subst h
-    unfold mean
-    rw [flatten_map_map, sum_map_div_const, hc]; simp
-
-/-! ### unit standard deviation / unit norm, and idempotence -/
-
-/-- PROPERTY (`normalize_std`, overall): the statistic is a standard deviation of the centred data (`σ·σ = var`),
-non-zero ⇒ the result has variance (hence standard deviation) 1 -/
-theorem normalize_std_unit_all (stat : List Rat → Rat) (e fx : Bool) (x y : Chans)
-    (h : normalizeV stat .all e fx x = .ok y)
-    (hσ : stat (cenAll x).flatten * stat (cenAll x).flatten = var (cenAll x).flatten)
-    (hnz : stat (cenAll x).flatten ≠ 0) : var y.flatten = 1 := by
-  rw [normalize_all_spec] at h
-  simp only [hnz, if_false] at h
-  injection h with h
-  subst h
-  rw [flatten_map_map, var_map_div_const, ← hσ]
-  field_simp
-
-/-- PROPERTY (`normalize_norm`, overall): `ν·ν = Σx²`, non-zero ⇒ the result has unit norm -/
-theorem normalize_norm_unit_all (stat : List Rat → Rat) (e fx : Bool) (x y : Chans)
-    (h : normalizeV stat .all e fx x = .ok y)
-    (hσ : stat (cenAll x).flatten * stat (cenAll x).flatten = sumsq (cenAll x).flatten)
-    (hnz : stat (cenAll x).flatten ≠ 0) : sumsq y.flatten = 1 := by
-  rw [normalize_all_spec] at h
-  simp only [hnz, if_false] at h
-  injection h with h
-  subst h
-  rw [flatten_map_map, sumsq_map_div_const, ← hσ]
-  field_simp
-
-/-- PROPERTY (per channel): every channel whose statistic is a non-zero standard deviation gets variance 1 -/
-theorem normalize_std_unit_per_channel (stat : List Rat → Rat) (row : List Rat)
-    (hσ : stat (cen row) * stat (cen row) = var (cen row)) (hnz : stat (cen row) ≠ 0) :
-    var (rowNorm stat row) = 1 := by
-  unfold rowNorm
-  simp only [hnz, if_false]
-  rw [var_map_div_const, ← hσ]
-  field_simp
-
-theorem normalize_norm_unit_per_channel (stat : List Rat → Rat) (row : List Rat)
-    (hσ : stat (cen row) * stat (cen row) = sumsq (cen row)) (hnz : stat (cen row) ≠ 0) :
-    sumsq (rowNorm stat row) = 1 := by
-  unfold rowNorm
-  simp only [hnz, if_false]
-  rw [sumsq_map_div_const, ← hσ]
-  field_simp
-
-theorem map_sub_zero (l : List Rat) : l.map (· - (0 : Rat)) = l := by
-  induction l with
-  | nil => rfl
-  | cons a t ih => simp
-theorem map_div_one (l : List Rat) : l.map (· / (1 : Rat)) = l := by
-  induction l with
-  | nil => rfl
-  | cons a t ih => simp
-
-/-- a second application to a channel that already has mean 0 and statistic 1 changes nothing -/
-theorem rowNorm_fixpoint (stat : List Rat → Rat) (r : List Rat) (hm : mean r = 0) (h1 : stat r = 1) :
-    rowNorm stat r = r := by
-  have hc : cen r = r := by unfold cen; rw [hm]; exact map_sub_zero r
-  unfold rowNorm
-  rw [hc, h1]
-  simp
-
-/-- PROPERTY (idempotence, per channel, `normalize_std`): the statistic is non-negative with `σ·σ = var` at the
-data it sees in both applications ⇒ the second application returns its input -/
-theorem normalize_std_idempotent_per_channel (stat : List Rat → Rat) (row : List Rat) (hne : row ≠ [])
-    (hσ : stat (cen row) * stat (cen row) = var (cen row)) (hnz : stat (cen row) ≠ 0)
-    (hσ' : 0 ≤ stat (rowNorm stat row) ∧ stat (rowNorm stat row) * stat (rowNorm stat row) = var (rowNorm stat row)) :
-    rowNorm stat (rowNorm stat row) = rowNorm stat row := by
-  apply rowNorm_fixpoint
-  · unfold mean; rw [sum_rowNorm stat row hne]; simp
-  · exact eq_one_of_sq _ hσ'.1 (by rw [hσ'.2, normalize_std_unit_per_channel stat row hσ hnz])
-
-theorem normalize_norm_idempotent_per_channel (stat : List Rat → Rat) (row : List Rat) (hne : row ≠ [])
-    (hσ : stat (cen row) * stat (cen row) = sumsq (cen row)) (hnz : stat (cen row) ≠ 0)
-    (hσ' : 0 ≤ stat (rowNorm stat row) ∧ stat (rowNorm stat row) * stat (rowNorm stat row) = sumsq (rowNorm stat row)) :
-    rowNorm stat (rowNorm stat row) = rowNorm stat row := by
-  apply rowNorm_fixpoint
-  · unfold mean; rw [sum_rowNorm stat row hne]; simp
-  · exact eq_one_of_sq _ hσ'.1 (by rw [hσ'.2, normalize_norm_unit_per_channel stat row hσ hnz])
-
-theorem cenAll_of_mean_zero (y : Chans) (h : mean y.flatten = 0) : cenAll y = y := by
-  unfold cenAll
-  rw [h]
-  induction y with
-  | nil => rfl
-  | cons r t ih => simp
-
-theorem map_map_div_one (y : Chans) : (y.map fun row => row.map (· / (1 : Rat))) = y := by
-  induction y with
-  | nil => rfl
-  | cons r t ih => simp
-
-/-- PROPERTY (idempotence, overall): `normalize_std` / `normalize_norm` applied twice = applied once.
-`q` is the quantity the statistic squares to (`var` resp. `sumsq`); the contract is assumed only at the data the
-statistic is applied to in the two calls. -/
-theorem normalize_idempotent_all (stat : List Rat → Rat) (q : List Rat → Rat) (e fx : Bool) (x y : Chans)
-    (hne : x.flatten ≠ []) (h : normalizeV stat .all e fx x = .ok y)
-    (hunit : q y.flatten = 1)
-    (hσ' : 0 ≤ stat y.flatten ∧ stat y.flatten * stat y.flatten = q y.flatten) :
-    normalizeV stat .all e fx y = .ok y := by
-  have hm : mean y.flatten = 0 := normalize_zero_mean_all stat e fx x y hne h
-  have h1 : stat y.flatten = 1 := eq_one_of_sq _ hσ'.1 (by rw [hσ'.2, hunit])
-  rw [normalize_all_spec, cenAll_of_mean_zero y hm, h1]
-  simp
-
-theorem normalize_std_idempotent_all (stat : List Rat → Rat) (e fx : Bool) (x y : Chans)
-    (hne : x.flatten ≠ []) (h : normalizeV stat .all e fx x = .ok y)
-    (hσ : stat (cenAll x).flatten * stat (cenAll x).flatten = var (cenAll x).flatten)
-    (hnz : stat (cenAll x).flatten ≠ 0)
-    (hσ' : 0 ≤ stat y.flatten ∧ stat y.flatten * stat y.flatten = var y.flatten) :
-    normalizeV stat .all e fx y = .ok y :=
-  normalize_idempotent_all stat var e fx x y hne h (normalize_std_unit_all stat e fx x y h hσ hnz) hσ'
-
-theorem normalize_norm_idempotent_all (stat : List Rat → Rat) (e fx : Bool) (x y : Chans)
-    (hne : x.flatten ≠ []) (h : normalizeV stat .all e fx x = .ok y)
-    (hσ : stat (cenAll x).flatten * stat (cenAll x).flatten = sumsq (cenAll x).flatten)
-    (hnz : stat (cenAll x).flatten ≠ 0)
-    (hσ' : 0 ≤ stat y.flatten ∧ stat y.flatten * stat y.flatten = sumsq y.flatten) :
-    normalizeV stat .all e fx y = .ok y :=
-  normalize_idempotent_all stat sumsq e fx x y hne h (normalize_norm_unit_all stat e fx x y h hσ hnz) hσ'
-
-/-! ### non-vacuity: a statistic that IS a standard deviation on the data it sees (pixels 1,3 / 5,9: σ = 1 and 2) -/
-
-def statEx (l : List Rat) : Rat :=
-  if l = [-1, 1] then 1 else if l = [-2, 2] then 2 else if l = [-3, -1, 1, 3] then 0 else 1
-
-example : normalizeV statEx .perChannel true false [[1, 3], [5, 9]] = .ok [[-1, 1], [-1, 1]] := by decide +kernel
-example : statEx (cen [5, 9]) * statEx (cen [5, 9]) = var (cen [5, 9]) ∧ statEx (cen [5, 9]) ≠ 0 := by decide +kernel
-example : 0 ≤ statEx (rowNorm statEx [5, 9]) ∧
-    statEx (rowNorm statEx [5, 9]) * statEx (rowNorm statEx [5, 9]) = var (rowNorm statEx [5, 9]) := by decide +kernel
-example : normalizeV statEx .perChannel true false [[-1, 1], [-1, 1]] = .ok [[-1, 1], [-1, 1]] := by decide +kernel
-/-- zero statistic: refused, skipped (per channel), IndexError as coded in mode all, centred data as repaired -/
-example : normalizeV var .perChannel true false [[1, 3], [4, 4]] = .error .zeroScale := by decide +kernel
-example : normalizeV var .perChannel false false [[1, 3], [4, 4]] = .ok [[-1, 1], [0, 0]] := by decide +kernel
-example : normalizeV statEx .all false false [[1, 3], [5, 7]] = .error .index := by decide +kernel
-example : normalizeV statEx .all false true [[1, 3], [5, 7]] = .ok [[-3, -1], [1, 3]] := by decide +kernel
-
-/-! ### `normalize` on images: masked pixels only, annotations kept -/
-
-theorem rowNorm_length (stat : List Rat → Rat) (row : List Rat) : (rowNorm stat row).length = row.length := by
-  unfold rowNorm cen; split <;> simp
-
-theorem normalizeV_row_lengths (stat : List Rat → Rat) (mode : Mode) (e fx : Bool) (x y : Chans)
-    (h : normalizeV stat mode e fx x = .ok y) : y.map List.length = x.map List.length := by
-  cases mode with
-  | all =>
-    rw [normalize_all_spec] at h
-    split at h
-    · cases e <;> cases fx <;> simp at h
-      subst h; simp [cenAll, List.map_map, Function.comp_def]
-    · injection h with h; subst h; simp [cenAll, List.map_map, Function.comp_def]
-  | perChannel =>
-    rw [normalize_per_channel_spec] at h
-    split at h
-    · cases h
-    · injection h with h; subst h
-      simp [List.map_map, Function.comp_def, rowNorm_length]
-
-/-- PROPERTY (annotations stay attached, same kind, same size) for the image-level normaliser -/
-theorem normalizeImg_annotations (stat : List Rat → Rat) (mode : Mode) (e fx : Bool) (im r : Img Arr)
-    (h : normalizeImg stat mode e fx im = .ok r) :
-    r.mask = im.mask ∧ r.lms = im.lms ∧ r.pixels.shape = im.pixels.shape := by
-  unfold normalizeImg at h
-  cases hm : im.mask with
-  | none =>
-    simp only [hm] at h
-    cases hn : normalizeV stat mode e fx im.pixels.chans with
-    | error err => simp [hn, Except.map] at h
-    | ok out => simp only [hn, Except.map] at h; injection h with h; subst h; exact ⟨rfl, rfl, rfl⟩
-  | some m =>
-    simp only [hm] at h
-    split at h
-    · cases hn : normalizeV stat mode e fx im.pixels.chans with
-      | error err => simp [hn, Except.map] at h
-      | ok out => simp only [hn, Except.map] at h; injection h with h; subst h; exact ⟨rfl, rfl, rfl⟩
-    · cases hn : normalizeV stat mode e fx (im.pixels.chans.map (gather m.bits)) with
-      | error err => simp [hn, Except.map] at h
-      | ok out => simp only [hn, Except.map] at h; injection h with h; subst h; exact ⟨rfl, rfl, rfl⟩
-
-/-- PROPERTY (same values as on the raw array) for a plain image or an all-true mask -/
-theorem normalizeImg_agrees_plain (stat : List Rat → Rat) (mode : Mode) (e fx : Bool) (im r : Img Arr)
-    (hm : im.mask = none ∨ ∃ m, im.mask = some m ∧ m.bits.all id = true)
-    (h : normalizeImg stat mode e fx im = .ok r) :
-    normalizeV stat mode e fx im.pixels.chans = .ok r.pixels.chans := by
-  unfold normalizeImg at h
-  rcases hm with hm | ⟨m, hm, hall⟩
-  · simp only [hm] at h
-    cases hn : normalizeV stat mode e fx im.pixels.chans with
-    | error err => simp [hn, Except.map] at h
-    | ok out => simp only [hn, Except.map] at h; injection h with h; subst h; rfl
-  · simp only [hm, hall, if_true] at h
-    cases hn : normalizeV stat mode e fx im.pixels.chans with
-    | error err => simp [hn, Except.map] at h
-    | ok out => simp only [hn, Except.map] at h; injection h with h; subst h; rfl
-
-/-- PROPERTY (masked image): the masked pixels of the result are the normalisation of the masked pixels of the
-input (the image's data), and the pixels outside the mask are 0 -/
-theorem normalizeImg_masked (stat : List Rat → Rat) (mode : Mode) (e fx : Bool) (im r : Img Arr) (m : Mask)
-    (hm : im.mask = some m) (hpart : m.bits.all id = false)
-    (hrect : ∀ row ∈ im.pixels.chans, row.length = m.bits.length)
-    (h : normalizeImg stat mode e fx im = .ok r) :
-    normalizeV stat mode e fx (im.pixels.chans.map (gather m.bits)) = .ok (r.pixels.chans.map (gather m.bits)) ∧
-    (∀ row ∈ r.pixels.chans, ∀ k : Nat, m.bits[k]? = some false → (row : List Rat)[k]? = some 0) := by
-  unfold normalizeImg at h
-  simp only [hm, hpart, Bool.false_eq_true, if_false] at h
-  cases hn : normalizeV stat mode e fx (im.pixels.chans.map (gather m.bits)) with
-  | error err => simp [hn, Except.map] at h
-  | ok out =>
-    simp only [hn, Except.map] at h
-    injection h with h
-    subst h
-    have hlen := normalizeV_row_lengths stat mode e fx _ out hn
-    constructor
-    · congr 1
-      simp only [List.map_map]
-      symm
-      have hrows : ∀ row ∈ out, row.length = m.bits.count true := by
-        intro row hrow
-        obtain ⟨i, hi, rfl⟩ := List.getElem_of_mem hrow
-        have h1 : (out.map List.length)[i]? = some (out[i].length) := by simp [hi]
-        rw [hlen] at h1
-        simp only [List.map_map, List.getElem?_map, Option.map_eq_some_iff] at h1
-        obtain ⟨a, ha, hl⟩ := h1
-        have hamem : a ∈ im.pixels.chans := List.mem_of_getElem? ha
-        simp only [Function.comp] at hl
-        rw [← hl]
-        exact gather_length m.bits a (hrect a hamem)
-      calc out.map (gather m.bits ∘ scatter 0 m.bits)
-          = out.map id := List.map_congr_left (fun row hrow => by
-              simp only [Function.comp, id]; exact gather_scatter 0 m.bits row (hrows row hrow))
-        _ = out := List.map_id _
-    · intro row hrow k hk
-      simp only [List.mem_map] at hrow
-      obtain ⟨v, _, rfl⟩ := hrow
-      exact scatter_unmasked 0 m.bits v k hk
-
-example : normalizeImg var .all true false ⟨⟨[4], [[1, 2, 3, 100]]⟩, some ⟨[4], [true, true, true, false]⟩, [(0, [[1]])]⟩
-    = .ok ⟨⟨[4], [[-3 / 2, 0, 3 / 2, 0]]⟩, some ⟨[4], [true, true, true, false]⟩, [(0, [[1]])]⟩ := by decide +kernel
-
-/-- PROPERTY (`normalize_std/norm/var` on an image of either kind): the values are those of the raw pixel array
-(all pixels, also under a mask), the image keeps its kind, mask and landmarks; refusals are passed on -/
-theorem normalizeNd_spec (stat : List Rat → Rat) (mode : Mode) (e fx : Bool) (im : Img Arr) :
-    normalizeNd stat mode e fx (.img im) =
-      match normalizeV stat mode e fx im.pixels.chans with
-      | .ok out => .ok (.img ⟨⟨im.pixels.shape, out⟩, im.mask, im.lms⟩)
-      | .error err => .error (.feature err.code) := by
-  unfold normalizeNd
-  simp only [ndfeature]
-  have harr : normalizeArr stat mode e fx im.pixels =
-      match normalizeV stat mode e fx im.pixels.chans with
-      | .ok out => .ok ⟨im.pixels.shape, out⟩
-      | .error err => .error (.feature err.code) := by
-    unfold normalizeArr imgfeature normalizeImg
-    cases hn : normalizeV stat mode e fx im.pixels.chans <;> simp [hn, Except.map, liftN]
-  rw [harr]
-  cases hn : normalizeV stat mode e fx im.pixels.chans with
-  | error err => rfl
-  | ok out =>
-    simp only []
-    rw [feature_same_size_keeps_annotations (fun p : Arr => p.shape) im ⟨im.pixels.shape, out⟩ rfl]
-    rfl
-
-theorem normalizeNd_array (stat : List Rat → Rat) (mode : Mode) (e fx : Bool) (p : Arr) :
-    normalizeNd stat mode e fx (.arr p) =
-      match normalizeV stat mode e fx p.chans with
-      | .ok out => .ok (.arr ⟨p.shape, out⟩)
-      | .error err => .error (.feature err.code) := by
-  unfold normalizeNd
-  simp only [ndfeature]
-  unfold normalizeArr imgfeature normalizeImg
-  cases hn : normalizeV stat mode e fx p.chans <;> simp [hn, Except.map, liftN]
-
-example : normalizeNd var .perChannel false false
-      (.img ⟨⟨[2], [[1, 3], [4, 4]]⟩, some ⟨[2], [true, false]⟩, [(0, [[1]])]⟩)
-    = .ok (.img ⟨⟨[2], [[-1, 1], [0, 0]]⟩, some ⟨[2], [true, false]⟩, [(0, [[1]])]⟩) := by decide +kernel
-
-/-! ## Part C — the input is never written -/
-
-theorem set_append_length {α} (l : List α) (a b : α) : (l ++ [a]).set l.length b = l ++ [b] := by
-  induction l with
-  | nil => rfl
-  | cons x t ih => simp [ih]
-
-/-- PROPERTY (never modifies its input), `normalize`: every buffer that existed before the call — in particular the
-image's own pixel buffer, of which `as_vector` is a view — is unchanged afterwards; the result lives in a buffer
-allocated during the call; and that buffer holds exactly the value-level result.  (The only in-place write of the
-code, `centered[nz] = …`, goes to the array allocated by `pixels - mean`.) -/
-theorem normalize_input_untouched (stat : List Rat → Rat) (mode : Mode) (e fx : Bool) (s s' : Store) (i j : Nat)
-    (h : normalizeS stat mode e fx s i = .ok (s', j)) :
-    (∃ extra, s'.bufs = s.bufs ++ extra) ∧ s.bufs.length ≤ j ∧
-    normalizeV stat mode e fx (s.read i) = .ok (s'.read j) := by
-  have hread : (⟨s.bufs ++ [centre mode (s.read i)]⟩ : Store).read s.bufs.length = centre mode (s.read i) := by
-    simp [Store.read]
-  unfold normalizeS at h
-  simp only [Store.alloc, hread] at h
-  have hV : normalizeV stat mode e fx (s.read i)
-      = normCore mode e fx (centre mode (s.read i)) (scalesOf stat mode (centre mode (s.read i))) := rfl
-  split at h
-  · cases h
-  · rename_i hnot
-    have hcore : ∀ v, normCore mode e fx (centre mode (s.read i)) (scalesOf stat mode (centre mode (s.read i))) = .ok v →
-        normalizeV stat mode e fx (s.read i) = .ok v := fun v hv => by rw [hV, hv]
-    split at h
-    · cases hn : normCore mode e fx (centre mode (s.read i)) (scalesOf stat mode (centre mode (s.read i))) with
-      | error err => simp [hn] at h
-      | ok v =>
-        rw [hn] at h
-        simp only [Store.write, Store.read, set_append_length] at h
-        injection h with h
-        injection h with h1 h2
-        subst h1; subst h2
-        refine ⟨⟨[v, v], by simp⟩, by simp, ?_⟩
-        rw [hcore v hn]; simp [Store.read]
-    · cases hn : normCore mode e fx (centre mode (s.read i)) (scalesOf stat mode (centre mode (s.read i))) with
-      | error err => simp [hn] at h
-      | ok v =>
-        rw [hn] at h
-        simp only [Store.read] at h
-        injection h with h
-        injection h with h1 h2
-        subst h1; subst h2
-        refine ⟨⟨[centre mode (s.read i), v, v], by simp [Store.read]⟩, by simp, ?_⟩
-        rw [hcore v hn]; simp [Store.read]
-
-/-- a store-level array feature that only allocates -/
-def Frame (f : SFeat) : Prop := ∀ s i s' j, f s i = .ok (s', j) → ∃ extra, s'.bufs = s.bufs ++ extra
-
-/-- PROPERTY (never modifies its input), wrappers: the decorator performs no write of its own — if the wrapped
-array-level feature leaves existing buffers alone, so does the decorated feature called on an image; the returned
-image wraps the feature's own output buffer -/
-theorem wrapper_input_untouched (sh : Chans → List Nat) (f : SFeat) (hf : Frame f) (s s' : Store) (im r : SImg)
-    (h : ndfeatureS sh f s im = .ok (s', r)) :
-    (∃ extra, s'.bufs = s.bufs ++ extra) ∧ f s im.pix = .ok (s', r.pix) := by
-  unfold ndfeatureS at h
-  cases hfs : f s im.pix with
-  | error err => simp [hfs] at h
-  | ok sj =>
-    obtain ⟨s1, j⟩ := sj
-    simp only [hfs] at h
-    split at h
-    · cases h
-    · injection h with h
-      injection h with h1 h2
-      subst h1; subst h2
-      exact ⟨hf s im.pix s1 j hfs, rfl⟩
-
-/-- the buffer-level `normalize` is such a feature (so are its `@ndfeature` wrappers `normalize_std/norm/var`) -/
-theorem normalizeS_frame (stat : List Rat → Rat) (mode : Mode) (e fx : Bool) :
-    Frame fun s i => match normalizeS stat mode e fx s i with
-      | .ok r => .ok r
-      | .error _ => .error (.feature 0) := by
-  intro s i s' j h
-  cases hn : normalizeS stat mode e fx s i with
-  | error err => simp [hn] at h
-  | ok r =>
-    simp only [hn] at h
-    injection h with h
-    subst h
-    exact (normalize_input_untouched stat mode e fx s s' i j hn).1
-
-example : (normalizeS var .all true false ⟨[[[1, 3]]]⟩ 0).map (fun r => (r.1.read 0, r.1.read r.2, r.2))
-    = .ok ([[1, 3]], [[-1, 1]], 3) := by decide +kernel
-
-end MenpoModel.C18
+import MenpoModel.Props.C18Base
+import MenpoModel.Props.C18Kernels
+import MenpoModel.Props.C18Seq
+import MenpoModel.Props.C18Resize
+import MenpoModel.Props.C18Norm
